@@ -10,6 +10,7 @@ mod guard;
 mod huff;
 mod idx;
 mod observe;
+mod probe;
 mod ops;
 mod rng;
 mod runner;
@@ -100,6 +101,7 @@ fn special(engine: &str, prop: u8) -> Vec<DynScen> {
                 dynscen(twin::TwinScen::<SliceCollapsePairsStrOpt, SlicePairsStrOpt> { streams: s_slice, byte_identity: false, skip_first_pair: false, _m: PD }),
             ]
         }
+        ("probe", 4) => vec![dynscen(probe::ProbeScen)],
         ("dict", 7) => vec![dynscen(dict::DictScen)],
         ("huff", 6) => vec![dynscen(huff::HuffScen { wide: false }), dynscen(huff::HuffScen { wide: true })],
         _ => Vec::new(),
@@ -189,7 +191,7 @@ fn main() {
                 None => eprintln!("{res}"),
             }
         }
-        "idx" | "huff" | "dict" | "allocs" | "twin" => {
+        "idx" | "huff" | "dict" | "allocs" | "twin" | "probe" => {
             let prop: u8 = arg(&args, "--prop").and_then(|s| s.trim_start_matches('C').parse().ok()).unwrap_or_else(|| die("--prop"));
             let runs: u64 = arg(&args, "--runs").and_then(|s| s.parse().ok()).unwrap_or(1000);
             let seed: u64 = arg(&args, "--seed").and_then(|s| s.parse().ok()).unwrap_or(runner::DEFAULT_SEED);
